@@ -230,7 +230,7 @@ def _populate(fset, mfs, layout):
     for k, s in enumerate(STARTS):
         t0 = _d(s)
         if cov is None:
-            t1 = t0 + timedelta(hours=7 * (k % 3) + 1)
+            t1 = t0 + timedelta(hours=0 if k == 5 else 7 * (k % 3) + 1)      # (one file of zero length: end == start)
             name = fset.get_filename((t0, t1))
         else:
             import pandas as pd
@@ -269,6 +269,62 @@ def k_tree(ctx):
             ctx.check("find-is-exact-on-the-tree", (t0 < end and t1 >= start) == got,
                       detail="%s [%s, %s] yielded=%r" % (name, t0, t1, got))
     ctx.check("nothing-else", all(p in [f[0] for f in files] for p in found), detail=repr(found))
+
+
+# ---- K3b: several filter keys at once (white and '!'-black lists on two user placeholders) -----------------
+MULTI = {
+    "two-black": {"!sat": "B", "!mode": "y"},
+    "two-black-reversed": {"!mode": "y", "!sat": "B"},
+    "white+black": {"sat": "A", "!mode": "y"},
+    "black+white": {"!sat": "B", "mode": ["x", "y"]},
+    "two-white": {"sat": ["A", "B"], "mode": "x"},
+    "black-lists": {"!sat": ["B", "C"], "!mode": ["y", "z"]},
+}
+
+
+def _multi_passes(filters, attr):
+    for key, val in filters.items():
+        vals = val if isinstance(val, (list, tuple)) else [val]
+        if key.startswith("!"):
+            if attr[key[1:]] in vals:
+                return False
+        elif attr[key] not in vals:
+            return False
+    return True
+
+
+@harness("C01.multi-filter", cases=lambda tier: sorted(MULTI), expect=lambda c: ["every-filter-key-is-honoured"])
+def k_multi(ctx):
+    """find(start, end, filters) with more than one key: a file is yielded iff it overlaps the (symbolic)
+    period and passes *every* white list and *every* black list."""
+    filters = MULTI[ctx.case]
+    mfs = ModelFS(ctx, max_faults=0)
+    fset = make_fileset(ctx, "/data/{sat}_{mode}_{year}{month}{day}{hour}.nc", mfs, time_coverage="1 hour")
+    files = []
+    for k, (sat, mode, day) in enumerate([("A", "x", 1), ("A", "y", 1), ("B", "x", 2), ("B", "y", 2), ("A", "x", 3)]):
+        t0 = datetime(2020, 1, day, 6 * (k % 2))
+        name = fset.get_filename(t0, fill={"sat": sat, "mode": mode})
+        mfs.files[name] = ("content", k)
+        files.append((name, t0, t0 + timedelta(hours=1), {"sat": sat, "mode": mode}))
+    with sym_env(ctx, WIN_TREE):
+        start = ST.sym_datetime(ctx, "start", WIN_TREE, lo=datetime(2019, 12, 1), hi=datetime(2020, 4, 1))
+        end = ST.sym_datetime(ctx, "end", WIN_TREE, lo=datetime(2019, 12, 1), hi=datetime(2020, 4, 1))
+        ctx.assume(start < end)
+        try:
+            found = [fi.path for fi in fset.find(start, end, filters=dict(filters))]
+        except F.NoFilesError:
+            found = []
+    ctx.check("each-file-once", len(set(found)) == len(found))
+    for (name, t0, t1, attr) in files:
+        got = name in found
+        ok = _multi_passes(filters, attr)
+        if ctx.sym:
+            exp = And(end > t0, start <= t1) if ok else False
+            ctx.check("every-filter-key-is-honoured", (exp if got else Not(exp)) if ok else (not got),
+                      detail="%s %r yielded=%r filters=%r" % (name, attr, got, filters))
+        else:
+            ctx.check("every-filter-key-is-honoured", ((t0 < end and t1 >= start) and ok) == got,
+                      detail="%s %r yielded=%r filters=%r" % (name, attr, got, filters))
 
 
 # ---- K4: bundling by time frequency (pandas Grouper) on a concrete tree, symbolic period -----------------
@@ -329,9 +385,9 @@ def k_freq(ctx):
 
 
 PLAN = {
-    "quick": {"harnesses": ["C01.per-file", "C01.bundles", "C01.tree", "C01.freq-bundles"],
+    "quick": {"harnesses": ["C01.per-file", "C01.bundles", "C01.tree", "C01.freq-bundles", "C01.multi-filter"],
               "opts": {"query_timeout_ms": 10000, "chunk_paths": 40}},
-    "thorough": {"harnesses": ["C01.per-file", "C01.bundles", "C01.tree", "C01.freq-bundles"],
+    "thorough": {"harnesses": ["C01.per-file", "C01.bundles", "C01.tree", "C01.freq-bundles", "C01.multi-filter"],
                  "opts": {"query_timeout_ms": 20000, "chunk_paths": 40}},
 }
 BOUNDS = {"quick": {"per-file decision": "flat template, n <= 2 files with arbitrary symbolic coverages (microsecond resolution), <= 1 symbolic "
@@ -340,6 +396,7 @@ BOUNDS = {"quick": {"per-file decision": "flat template, n <= 2 files with arbit
                     "directory pruning": "9 directory layouts (year/month/day, year/doy, year, year2/month/day/hour, user placeholder above year/doy and below year/month/day, "
                                          "a literal directory between year and month, end fields, flat) x 8 concrete files placed at year / month / leap-day boundaries, file length <= one "
                                          "period of the finest directory level; every period [start, end) with microsecond bounds in 2019-12-01 .. 2020-04-01",
+                    "several filter keys": "6 combinations of white / black (value and list) filters on two user placeholders, 5 concrete files, every symbolic period",
                     "bundling": "n <= 3 symbolic files, integer bundle sizes 1, 2, 4, sorted and unsorted; by time frequency (1D, 12h, 6h) on 8 concrete "
                                 "files (several per bundle, year / leap-day boundaries) in 2 layouts for every symbolic period"},
           "thorough": {"per-file decision": "adds list filters; n = 1 with 2 excluded periods under every filter; n = 2 with 2 excluded periods (no / white-list filter); n = 3 files without excluded periods (no / white-list / black-list filter) and with 1 excluded period (no filter)", "directory pruning": "all %d layouts (adds year-month/day, literal/year/doy, year/month/literal, year/literal/literal/month/day, name-literal/year, year/month/day/hour, ...)" % len(LAYOUTS),
